@@ -370,8 +370,10 @@ func formatPostingWithOpts(posting *ast.Posting, alignment AlignmentInfo, commod
 	}
 
 	if posting.Comment != "" {
-		sb.WriteString("  ; ")
-		sb.WriteString(posting.Comment)
+		// the comment text keeps its own leading blanks: adding one here would grow the
+		// comment by a blank with every formatting run
+		sb.WriteString("  ;")
+		sb.WriteString(strings.TrimRight(posting.Comment, " \t"))
 	}
 
 	return sb.String()
